@@ -120,6 +120,19 @@ func (f *Frame) freshResults(st *State, sig *types.Signature, hint string) []*V 
 
 // dynamicCall handles a call through a function value that is not a known closure.
 func (f *Frame) dynamicCall(instr ssa.Instruction, c *ssa.CallCommon, fv *V, args []*V, st *State) []*V {
+	// a package-level function variable that only its initialiser assigns
+	if ld, ok := c.Value.(*ssa.UnOp); ok {
+		if g, ok := ld.X.(*ssa.Global); ok && f.u.eng.GlobalImmutable(g) {
+			switch iv := f.u.eng.globalInit[g].(type) {
+			case *ssa.Function:
+				return f.inline(instr, iv, args, nil, st)
+			case *ssa.MakeClosure:
+				if fn, ok := iv.Fn.(*ssa.Function); ok && len(iv.Bindings) == 0 {
+					return f.inline(instr, fn, args, nil, st)
+				}
+			}
+		}
+	}
 	if h := f.u.eng.DynCallHook; h != nil {
 		if r, ok := h(f, instr, c, fv, args, st); ok {
 			return r
@@ -578,7 +591,7 @@ func (f *Frame) parseFootprint(ct *Contract, ctx *SpecCtx, pre *State) []fpItem 
 			it.bases = []T{sv.Sl.Arr}
 		default:
 			// Type.field, Type (all fields), maps(Type), elemsof(Type)
-			keys := u.keysForTypeSpec(head, ctx.pkg)
+			keys, embf := u.keysForTypeSpecEmb(head, ctx.pkg)
 			if len(keys) == 0 {
 				panic(unsupported("modifies: cannot resolve " + m))
 			}
@@ -589,7 +602,11 @@ func (f *Frame) parseFootprint(ct *Contract, ctx *SpecCtx, pre *State) []fpItem 
 					if err != nil {
 						panic(unsupported("modifies " + m + ": " + err.Error()))
 					}
-					it.bases = append(it.bases, octx.eval(e).T)
+					b := octx.eval(e).T
+					if embf[0] != "" {
+						b = u.emb(embf[0], embf[1], b)
+					}
+					it.bases = append(it.bases, b)
 				}
 			}
 		}
@@ -638,6 +655,42 @@ func (u *Unit) elemHKs(et types.Type) []hk {
 
 // keysForTypeSpec resolves "Type.field" / "Type" / "maptype(T)" / "elemtype(T)" to heap keys.
 func (u *Unit) keysForTypeSpec(spec string, pkg *types.Package) []hk {
+	k, _ := u.keysForTypeSpecEmb(spec, pkg)
+	return k
+}
+
+// keysForTypeSpecEmb also reports, for "Type.field" where the field is an
+// embedded struct or array, the emb function through which bases must be mapped.
+func (u *Unit) keysForTypeSpecEmb(spec string, pkg *types.Package) ([]hk, [2]string) {
+	var none [2]string
+	if !strings.Contains(spec, "(") {
+		parts := strings.Split(spec, ".")
+		for n := len(parts) - 1; n >= 1; n-- {
+			t := u.eng.resolveType(strings.Join(parts[:n], "."), pkg)
+			if t == nil {
+				continue
+			}
+			st := structOf(t)
+			if st == nil || len(parts[n:]) != 1 {
+				continue
+			}
+			for i := 0; i < st.NumFields(); i++ {
+				if st.Field(i).Name() == parts[n] {
+					ft := st.Field(i).Type()
+					if !isTime(ft) {
+						switch ft.Underlying().(type) {
+						case *types.Struct, *types.Array:
+							return u.fieldKeys(t, st.Field(i)), [2]string{structKey(t), parts[n]}
+						}
+					}
+				}
+			}
+		}
+	}
+	return u.keysForTypeSpecPlain(spec, pkg), none
+}
+
+func (u *Unit) keysForTypeSpecPlain(spec string, pkg *types.Package) []hk {
 	if strings.HasPrefix(spec, "maptype(") && strings.HasSuffix(spec, ")") {
 		t := u.eng.resolveType(spec[len("maptype("):len(spec)-1], pkg)
 		if t == nil {
